@@ -1,5 +1,5 @@
-CONSTANT Inst = "i4"
-CONSTANT Positions = "few"
+CONSTANT Inst = "i5"
+CONSTANT Positions = "cyc"
 INIT Init
 NEXT Next
 VIEW View
